@@ -62,10 +62,12 @@ pub fn render(c: &Value, split: bool) -> String {
         "unit" => "struct Demo;".to_string(),
         "newtype" => "struct Demo(u8);".to_string(),
         "tuple2" => "struct Demo(u8, u16);".to_string(),
+        "tuple0" => "struct Demo();".to_string(),
+        "named0" => "struct Demo {}".to_string(),
         "enum0" => "enum Demo {}".to_string(),
         "union" => "union Demo { a: u8, b: u16 }".to_string(),
         "enum" => {
-            let st = match c["v1style"].as_str().unwrap() { "unit" => "", "newtype" => "(u8)", "struct" => " { a: u8 }", _ => "(u8, u16)" };
+            let st = match c["v1style"].as_str().unwrap() { "unit" => "", "newtype" => "(u8)", "struct" => " { a: u8 }", "tuple0" => "()", "struct0" => " {}", _ => "(u8, u16)" };
             format!("enum Demo {{\n{}\nV1{},\n{}\n}}", v1, st, if c["v2present"] == true { format!("{}\nV2,", v2) } else { String::new() })
         }
         s => panic!("shape {}", s),
@@ -253,7 +255,7 @@ fn draw(rng: &mut Rng, alpha: &[(&str, &str)], max: usize, clean_bias: bool) -> 
 
 pub fn record(rng: &mut Rng, n: usize) -> Vec<Value> {
     const DERIVES: [&str; 6] = ["FromMeta", "FromDeriveInput", "FromField", "FromVariant", "FromTypeParam", "FromAttributes"];
-    const SHAPES: [&str; 10] = ["named", "named", "named", "named_attrs", "enum", "enum", "unit", "newtype", "tuple2", "enum0"];
+    const SHAPES: [&str; 12] = ["named", "named", "named", "named_attrs", "enum", "enum", "unit", "newtype", "tuple2", "enum0", "tuple0", "named0"];
     let mut out = vec![];
     for _ in 0..n {
         let derive = *rng.pick(&DERIVES);
@@ -264,7 +266,7 @@ pub fn record(rng: &mut Rng, n: usize) -> Vec<Value> {
         let f2 = if shape == "named" { draw(rng, &FIELD_ALPHA, 5, true) } else { vec![] };
         let v1 = if shape == "enum" { draw(rng, &VARIANT_ALPHA, 4, true) } else { vec![] };
         let v2 = if shape == "enum" { draw(rng, &VARIANT_ALPHA, 4, true) } else { vec![] };
-        let v1style = if v1.is_empty() { "unit" } else { *rng.pick(&["unit", "unit", "newtype", "struct", "tuple2"]) };
+        let v1style = if shape != "enum" { "unit" } else { *rng.pick(&["unit", "unit", "unit", "newtype", "struct", "tuple2", "tuple0", "struct0"]) };
         let mut c = json!({"derive": derive, "shape": shape, "cont": cont, "f1": f1, "f2": f2, "v1": v1, "v2": v2, "v1style": v1style,
                            "f2present": !f2.is_empty(), "v2present": !v2.is_empty()});
         let split = rng.chance(1, 3);
